@@ -350,3 +350,53 @@ func TestZZReplay(t *testing.T) {
 		},
 	})
 }
+
+func init() {
+	// ReplaceDisk guards (C11/C12): the head (and the base snapshot) must not be accepted as the disk to drop.
+	replayTemplates = append(replayTemplates, replayTemplate{
+		match: func(o *Obligation) bool {
+			return o.Fn == "replica.Replica.ReplaceDisk" && (strings.HasPrefix(o.Kind, "callpre:hardlinkDisk") || strings.HasPrefix(o.Kind, "pre:replica.Replica.removeDiskNode"))
+		},
+		scripted: true,
+		pkg:      "replica",
+		tags:     "debug",
+		gen: func(o *Obligation, vals map[string]string) (string, bool) {
+			body := `
+func TestZZReplay(t *testing.T) {
+	dir, err := ioutil.TempDir("", "zzreplay")
+	zzMust(t, err)
+	defer os.RemoveAll(dir)
+	r, err := New(true, 4*zzB, zzB, dir, nil, "Backend")
+	zzMust(t, err)
+	defer r.Close()
+	zzMust(t, r.SetReplicaMode("RW"))
+	r.holeDrainer = func() {}
+	_, err = r.WriteAt(zzFill(1, zzB), 0)
+	zzMust(t, err)
+	zzMust(t, r.Snapshot("000", true, "t0"))
+	zzMust(t, r.Snapshot("001", true, "t1"))
+	zzMust(t, r.Snapshot("002", true, "t2"))
+	head := r.info.Head
+	reproduced := false
+	// the head as the disk to drop
+	if err := r.ReplaceDisk("volume-snap-001.img", head); err == nil {
+		_, serr := os.Stat(dir + "/" + head)
+		_, inMeta := r.diskData[head]
+		t.Logf("ReplaceDisk(snap-001, head) accepted: head file present=%v, head metadata present=%v", serr == nil, inMeta)
+		reproduced = true
+	}
+	if reproduced {
+		t.Fatal("REPLAY-REPRODUCED")
+	}
+	// the base snapshot as the disk to drop
+	if err := r.ReplaceDisk("volume-snap-001.img", "volume-snap-000.img"); err == nil {
+		t.Logf("ReplaceDisk(snap-001, base) accepted: chain length now %d", len(r.activeDiskData))
+		t.Fatal("REPLAY-REPRODUCED")
+	}
+	t.Log("REPLAY-NOT-REPRODUCED")
+}
+`
+			return diskPrelude + body, true
+		},
+	})
+}
